@@ -360,6 +360,16 @@ def u4(chk):
             acc[f"v{i}"] = f"sol{i}"
         return out, acc
 
+    class Sol(str):
+        """a closed solution: substitution leaves it alone"""
+        def substitute(self, sub):
+            return self
+
+    class VarRef(str):
+        """a solution that IS another variable (N := K): substitution resolves it once that one is solved"""
+        def substitute(self, sub):
+            return sub.get(str(self)[1:], self)
+
     for n in range(0, 4):
         # ---- visit_Tuple / visit_List
         for meth in ("visit_Tuple", "visit_List"):
@@ -397,12 +407,12 @@ def u4(chk):
 
             def check(self_, el, ty, *a):
                 checks.append((el, ty))
-                return (("CHECKED", el), {f"v{len(checks) - 1}": f"sol{len(checks) - 1}"})
+                return (("CHECKED", el), {f"v{len(checks) - 1}": Sol(f"sol{len(checks) - 1}")})
             e.models[f"{EC}:ExprChecker.check"] = lambda it2, a, k: check(*a)
             out = SObj(ClassVal("Ty", builtin=True), {"unsolved_vars": set()})
             fty = SObj(ClassVal("FunctionType", builtin=True), {"parametrized": False, "comptime_args": [], "output": out,
                                                                "inputs": [SObj(ClassVal("FuncInput", builtin=True), {"ty": tys[i], "flags": it.getattr(IF, "NoFlags")}) for i in range(n)]})
-            r = it.call(f, [[f"el{i}" for i in range(n)], fty, {"v_in": "sol_in"}, None, "NODE"], {})
+            r = it.call(f, [[f"el{i}" for i in range(n)], fty, {"v_in": Sol("sol_in")}, None, "NODE"], {})
             return r, checks
 
         def post2(p, n=n):
@@ -413,7 +423,96 @@ def u4(chk):
             return z3.BoolVal(checks == want and rsub == acc and args == [("CHECKED", f"el{i}") for i in range(n)])
         chk.prove_paths(f"type_check_args[{n}]:argument-i-checked-against-input_i.substitute(incoming+solutions-of-arguments<i)/\\returns-the-union", e.explore(t2), post2,
                         func=f"{EC}:type_check_args", replay=lambda m_: {"script": REPLAY_CALL, "input": {"sig": "x: T, y: T", "arg": "True, 3"}})
+    # ---- chained solutions: the incoming substitution (from unifying the expected type with the return
+    # type) may solve one variable as ANOTHER one (w := ?v0).  Once argument 0 solves v0, every later
+    # argument must be checked with w resolved to that solution — otherwise a later argument could
+    # solve v0 a second time, differently, and overwrite it
+    for n in (2, 3):
+        def t2c(it, n=n):
+            f = it.lookup_global(m, "type_check_args")
+            IF = it.lookup_global(e.module(TY), "InputFlags")
+            log, checks = [], []
+            tys = [mk_ty(f"t{i}", log) for i in range(n)]
+
+            def check(self_, el, ty, *a):
+                checks.append((el, ty))
+                return (("CHECKED", el), {f"v{len(checks) - 1}": Sol(f"sol{len(checks) - 1}")})
+            e.models[f"{EC}:ExprChecker.check"] = lambda it2, a, k: check(*a)
+            out = SObj(ClassVal("Ty", builtin=True), {"unsolved_vars": set()})
+            fty = SObj(ClassVal("FunctionType", builtin=True), {"parametrized": False, "comptime_args": [], "output": out,
+                                                               "inputs": [SObj(ClassVal("FuncInput", builtin=True), {"ty": tys[i], "flags": it.getattr(IF, "NoFlags")}) for i in range(n)]})
+            r = it.call(f, [[f"el{i}" for i in range(n)], fty, {"w": VarRef("?v0"), "u": VarRef("?v1")}, None, "NODE"], {})
+            return r, checks
+
+        def post2c(p, n=n):
+            if p.kind != "return":
+                return z3.BoolVal(False)
+            (args, rsub), checks = p.value
+            ok = len(checks) == n
+            for i in range(n):
+                if not ok:
+                    break
+                sub_i = dict(checks[i][1][2])       # the substitution argument i's expected type was computed with
+                ok = ok and str(sub_i.get("w")) == ("?v0" if i == 0 else "sol0")
+                ok = ok and str(sub_i.get("u")) == ("?v1" if i <= 1 else "sol1")
+            ok = ok and str(rsub.get("w")) == "sol0" and str(rsub.get("u")) == "sol1" and str(rsub.get("v0")) == "sol0"
+            return z3.BoolVal(bool(ok))
+        chk.prove_paths(f"type_check_args[{n};chained]:a-variable-solved-as-another-variable-is-resolved-as-soon-as-that-one-is-solved(no-second-solution-later)", e.explore(t2c), post2c,
+                        func=f"{EC}:type_check_args", replay=lambda m_: {"script": REPLAY_CHAIN2, "input": {}})
+    # ---- type_check_args with @comptime parameters: the constant of a comptime argument is checked
+    # (check_comptime_arg) against the parameter's const and type under the substitution found SO FAR —
+    # incoming solutions, all earlier arguments and this argument's own type check — and handed that
+    # same substitution, so that a variable already solved cannot silently get a second solution
+    import itertools as _it
+    for n in (1, 2, 3):
+        for flags in _it.product((False, True), repeat=n):
+            if not any(flags):
+                continue
+
+            def t3(it, n=n, flags=flags):
+                f = it.lookup_global(m, "type_check_args")
+                IF = it.lookup_global(e.module(TY), "InputFlags")
+                log, checks, cchecks = [], [], []
+                tys = [mk_ty(f"t{i}", log) for i in range(n)]
+
+                def check(self_, el, ty, *a):
+                    checks.append((el, ty))
+                    return (("CHECKED", el), {f"v{len(checks) - 1}": Sol(f"sol{len(checks) - 1}")})
+                e.models[f"{EC}:ExprChecker.check"] = lambda it2, a, k: check(*a)
+
+                def cca(it2, a, k):
+                    arg, const, ty, sub = a
+                    cchecks.append((arg, const, ty, dict(sub)))
+                    return {f"c{len(cchecks) - 1}": Sol(f"csol{len(cchecks) - 1}")}
+                e.models[f"{EC}:check_comptime_arg"] = cca
+                consts = [mk_ty(f"const{i}", log) for i in range(n) if flags[i]]
+                cargs = [SObj(ClassVal("ConstArg", builtin=True), {"const": c}) for c in consts]
+                out = SObj(ClassVal("Ty", builtin=True), {"unsolved_vars": set()})
+                fty = SObj(ClassVal("FunctionType", builtin=True), {"parametrized": False, "comptime_args": cargs, "output": out,
+                                                                   "inputs": [SObj(ClassVal("FuncInput", builtin=True), {"ty": tys[i], "flags": it.getattr(IF, "Comptime" if flags[i] else "NoFlags")}) for i in range(n)]})
+                r = it.call(f, [[f"el{i}" for i in range(n)], fty, {"v_in": Sol("sol_in")}, None, "NODE"], {})
+                return r, checks, cchecks
+
+            def post3(p, n=n, flags=flags):
+                if p.kind != "return":
+                    return z3.BoolVal(False)
+                (args, rsub), checks, cchecks = p.value
+                acc = {"v_in": "sol_in"}
+                want_checks, want_c = [], []
+                j = 0
+                for i in range(n):
+                    want_checks.append((f"el{i}", ("SUBSTITUTED", f"t{i}", tuple(sorted(acc.items())))))
+                    acc[f"v{i}"] = f"sol{i}"
+                    if flags[i]:
+                        snap = tuple(sorted(acc.items()))
+                        want_c.append((("CHECKED", f"el{i}"), ("SUBSTITUTED", f"const{i}", snap), ("SUBSTITUTED", f"t{i}", snap), dict(acc)))
+                        acc[f"c{j}"] = f"csol{j}"
+                        j += 1
+                return z3.BoolVal(checks == want_checks and cchecks == want_c and rsub == acc)
+            chk.prove_paths(f"type_check_args[{n};comptime at {[i for i in range(n) if flags[i]]}]:comptime-constant-checked-under-and-WITH-the-substitution-found-so-far/\\its-solutions-join-the-union", e.explore(t3), post3,
+                            func=f"{EC}:type_check_args", replay=lambda m_: {"script": REPLAY_COMPTIME_CHAIN, "input": {}})
     e.models.pop(f"{EC}:ExprChecker.check", None)
+    e.models.pop(f"{EC}:check_comptime_arg", None)
 
     array_literal_threading(chk, e, mk_ty, expected_checks)
 
@@ -639,3 +738,74 @@ def bounded(chk, i):
         o.replay.update({"script": ORACLE + REPLAY_ONE, "input": {"depth": inp["depth"], "i": w["i"], "j": w["j"]}})
     elif w:
         o.replay.update({"script": ORACLE + REPLAY_CYCLE, "input": {}})
+
+
+REPLAY_COMPTIME_CHAIN = r'''
+import tempfile, importlib.util, os, sys, shutil
+from guppylang_internals.error import GuppyError
+src = """from guppylang import guppy
+from guppylang.std.builtins import array, nat, comptime
+T = guppy.type_var("T")
+n = guppy.nat_var("n")
+@guppy.declare
+def zeros(r: nat @comptime, c: nat @comptime) -> "array[array[T, c], r]": ...
+@guppy.declare
+def trace(m: array[array[int, n], n]) -> int: ...
+@guppy
+def square_ok() -> int:
+    return trace(zeros(3, 3))
+@guppy
+def square_bad() -> int:
+    return trace(zeros(2, 3))
+"""
+d = tempfile.mkdtemp(dir=os.environ.get("TMPDIR", "/var/tmp")); fn = os.path.join(d, "replay_c12c.py"); open(fn, "w").write(src)
+spec = importlib.util.spec_from_file_location("replay_c12c", fn); m = importlib.util.module_from_spec(spec); sys.modules["replay_c12c"] = m
+try:
+    spec.loader.exec_module(m)
+    res = {}
+    for name in ("square_ok", "square_bad"):
+        try:
+            getattr(m, name).check(); res[name] = "accepted"
+        except GuppyError as ex:
+            res[name] = "rejected:" + type(ex.error).__name__
+    out = {"violates": res["square_bad"] == "accepted" or res["square_ok"] != "accepted", "observed": res, "required": "trace(zeros(2, 3)) has no instantiation (n = 2 and n = 3) and must be rejected; trace(zeros(3, 3)) must be accepted"}
+except Exception as ex:
+    out = {"violates": False, "error": repr(ex)[:300]}
+shutil.rmtree(d, ignore_errors=True)
+print(json.dumps(out))
+'''
+
+
+REPLAY_CHAIN2 = r'''
+import tempfile, importlib.util, os, sys, shutil
+from guppylang_internals.error import GuppyError
+src = """from guppylang import guppy
+from guppylang.std.option import Option
+T = guppy.type_var("T"); K = guppy.type_var("K"); N = guppy.type_var("N"); M = guppy.type_var("M")
+@guppy.declare
+def mk(a: K, b: N) -> "Option[tuple[T, N, K]]": ...
+@guppy.declare
+def want(o: "Option[tuple[int, M, M]]") -> None: ...
+@guppy
+def ok() -> None:
+    want(mk(3, 4))
+@guppy
+def bad() -> None:
+    want(mk(3, True))
+"""
+d = tempfile.mkdtemp(dir=os.environ.get("TMPDIR", "/var/tmp")); fn = os.path.join(d, "replay_c12d.py"); open(fn, "w").write(src)
+spec = importlib.util.spec_from_file_location("replay_c12d", fn); m = importlib.util.module_from_spec(spec); sys.modules["replay_c12d"] = m
+try:
+    spec.loader.exec_module(m)
+    res = {}
+    for name in ("ok", "bad"):
+        try:
+            getattr(m, name).check(); res[name] = "accepted"
+        except GuppyError as ex:
+            res[name] = "rejected:" + type(ex.error).__name__
+    out = {"violates": res["bad"] == "accepted" or res["ok"] != "accepted", "observed": res, "required": "want(mk(3, True)) needs N = K with K = int and N = bool: no instantiation, must be rejected; want(mk(3, 4)) must be accepted"}
+except Exception as ex:
+    out = {"violates": False, "error": repr(ex)[:300]}
+shutil.rmtree(d, ignore_errors=True)
+print(json.dumps(out))
+'''
